@@ -76,4 +76,4 @@ def main(run: common.Run):
 
 
 if __name__ == "__main__":
-    common.guarded_main("C02", "proof", main)
+    common.guarded_main("C02", "proof", main, generic_replay=True)
